@@ -334,9 +334,9 @@ func (s *Server) parseSearchScanBaseTokens(
 						return
 					}
 					var minx, maxx bool
-					smin = strings.ToLower(smin)
-					smax = strings.ToLower(smax)
-					if smax == "+inf" || smax == "inf" {
+					// Do not change the case of the comparands: JSON values and
+					// strings such as "TRUE" are different values when lowercased.
+					if l := strings.ToLower(smax); l == "+inf" || l == "inf" {
 						smax = "inf"
 					}
 					switch smin {
